@@ -19,6 +19,37 @@ PROPS['C10'].update(
     level_note='Assumes the B-tree layer frees only pages of its own snapshot (A1); std collections per vstd specs; prelude shims listed in evidence.trusted_base.',
 )
 
+A_FNV = 'H0: the `fnv` crate implements FNV-1a (prelude stand-in FnvHasher: finish() == fnv1a(bytes written)); H1: no FNV-1a collision between a header and a multi-byte-damaged variant (single-byte damage is proved: lemma_fnv_one_byte)'
+A_VIEWS = 'page/header views into the map are uninterpreted functions of (bytes, page id, page size) (prelude/mmap.rs); their field offsets are pinned on the real casts by Kani unit K1, their alignment/bounds precondition by K4; two header slots are assumed to have different 40-byte page headers (modelling restriction of the view stubs)'
+A_SEQ = 'sequential view of Mutex/RwLock (prelude/sync.rs): a lock yields the value current at that call, locks are never poisoned'
+
+PROPS['C12'] = dict(
+    level='proof',
+    units=['meta', 'db', 'freelist'],
+    kani_quick=['layout'],
+    explanation='Header damage falls back: DBInner::meta returns exactly select_header (newest slot that is tagged META and whose checksum '
+                'matches; current format first, then legacy) with the other slot ARBITRARY, never panics under that precondition (M3); '
+                'Meta::valid is hash == FNV-1a of the pinned 60 bytes (M1); one-byte changes of the hashed bytes change the hash '
+                '(M1-sens, proved by bit-vector + induction); pages freed by the newest commit sit in pending[tx] which allocate never touches (F1, F3).',
+    level_text='Machine-checked contracts on the real bodies of DBInner::meta, Page::meta/old_meta, Meta::valid/hash_self, OldMeta::*, From<&OldMeta>, for all file contents; layout pins by complete (loop-free, fully symbolic) Kani harnesses.',
+    level_note='Trusted: FNV-1a/SHA3 crates, page-view stubs (field offsets checked by K1), multi-byte damage relies on H1. Lemma L4 (composition) is on paper.',
+    assumptions=[A_TOOLS, A_ARITH, A_FNV, A_VIEWS, A_SEQ, 'SHA3-256 is an uninterpreted function of the hashed bytes (legacy header)'],
+    not_covered=['that the state shown after fallback is complete (needs the tree layer: A1/INV-live)', 'multi-byte damage beyond H1'],
+)
+
+PROPS['C15'] = dict(
+    level='proof',
+    units=['meta', 'db'],
+    kani_quick=['layout', 'frombuf'],
+    explanation='The golden files are replaced by the pinned layout written into the contracts: K1 pins every field offset/size/tag of Page, '
+                'Meta, OldMeta, LeafElement, BranchElement, BucketMeta on the real casts (complete Kani harnesses); M1/M2 pin the checksum input '
+                '(60 big-endian bytes in fixed order; FNV-1a resp. SHA3-256); M3 pins header selection incl. legacy fallback and refuses a foreign page size by the documented assertion.',
+    level_text='Contracts on the real header code for all inputs (Verus) plus complete Kani layout harnesses over fully symbolic buffers.',
+    level_note='Trusted: fnv and sha3 crates, bytes writer stand-in. Any change of field order, width, checksum input or tag constants fails a named obligation.',
+    assumptions=[A_TOOLS, A_ARITH, A_FNV, A_VIEWS, A_SEQ],
+    not_covered=['logical contents of golden files with nested buckets / multi-page values (tree layer not under contract)', 'init_file constants until unit O1 is built'],
+)
+
 PENDING = 'not claimed yet in this build session: deciding units are not built (see DESIGN section 10)'
 NOT_APPLICABLE = {
     'C04': 'quantifies over thread schedules; Kani has no threads, Verus would need the code rewritten onto its permission types (a model) — DESIGN section 6',
@@ -26,5 +57,5 @@ NOT_APPLICABLE = {
     'C13': 'quantifies over schedules of OS processes and flock semantics; a sequential contract cannot decide mutual exclusion — DESIGN section 6',
     'C14': 'quantifies over client programs and is decided by rustc borrow/Send checking of each program, not by contracts on jammdb bodies — DESIGN section 6',
 }
-for _p in ['C01', 'C02', 'C03', 'C05', 'C06', 'C07', 'C08', 'C11', 'C12', 'C15', 'C16']:
+for _p in ['C01', 'C02', 'C03', 'C05', 'C06', 'C07', 'C08', 'C11', 'C16']:
     NOT_APPLICABLE.setdefault(_p, PENDING)
